@@ -7,6 +7,10 @@ type nat =
 
 val option_map : ('a1 -> 'a2) -> 'a1 option -> 'a2 option
 
+val fst : ('a1 * 'a2) -> 'a1
+
+val snd : ('a1 * 'a2) -> 'a2
+
 val length : 'a1 list -> nat
 
 val app : 'a1 list -> 'a1 list -> 'a1 list
@@ -19,6 +23,8 @@ type comparison =
 val add : nat -> nat -> nat
 
 val sub : nat -> nat -> nat
+
+val eqb : bool -> bool -> bool
 
 module Nat :
  sig
@@ -33,9 +39,19 @@ module Nat :
 
 val nth_error : 'a1 list -> nat -> 'a1 option
 
+val last : 'a1 list -> 'a1 -> 'a1
+
+val map : ('a1 -> 'a2) -> 'a1 list -> 'a2 list
+
+val flat_map : ('a1 -> 'a2 list) -> 'a1 list -> 'a2 list
+
+val fold_right : ('a2 -> 'a1 -> 'a1) -> 'a1 -> 'a2 list -> 'a1
+
 val firstn : nat -> 'a1 list -> 'a1 list
 
 val skipn : nat -> 'a1 list -> 'a1 list
+
+val repeat : 'a1 -> nat -> 'a1 list
 
 type positive =
 | XI of positive
@@ -114,6 +130,8 @@ module N :
 
   val ltb : n -> n -> bool
 
+  val max : n -> n -> n
+
   val pos_div_eucl : positive -> n -> n * n
 
   val div_eucl : n -> n -> n * n
@@ -134,6 +152,8 @@ val bind : 'a1 res -> ('a1 -> 'a2 res) -> 'a2 res
 val idx : 'a1 list -> nat -> site -> 'a1 res
 
 val upd : 'a1 list -> nat -> 'a1 -> 'a1 list
+
+val u64_max : n
 
 val enc_opt : n option -> n list
 
@@ -201,3 +221,251 @@ val decode_ops : n list -> op list
 val run_ops : bool -> inflights -> op list -> n list
 
 val run_inflights : n list -> n list
+
+type entry = { e_term : n; e_index : n; e_type : n; e_data : n list;
+               e_context : n list; e_sync_log : bool }
+
+val varint_len : n -> n
+
+val varint_field_size : n -> n
+
+val bytes_field_size : n list -> n
+
+val entry_size : entry -> n
+
+val nO_LIMIT : n
+
+val limit_count : ('a1 -> n) -> 'a1 list -> n -> n -> nat
+
+val limit_size_by : ('a1 -> n) -> 'a1 list -> n option -> 'a1 list
+
+val limit_size : entry list -> n option -> entry list
+
+type hard_state = { hs_term : n; hs_vote : n; hs_commit : n }
+
+type conf_state = { cs_voters : n list; cs_learners : n list;
+                    cs_voters_outgoing : n list; cs_learners_next : n list;
+                    cs_auto_leave : bool }
+
+val hs_default : hard_state
+
+val cs_default : conf_state
+
+val list_eqb : n list -> n list -> bool
+
+val cs_eqb : conf_state -> conf_state -> bool
+
+type snapshot = { s_index : n; s_term : n; s_cs : conf_state }
+
+type gectx =
+| CtxSendAppend of n * n * bool
+| CtxGenReady
+| CtxTransferLeader
+| CtxCommitByVote
+| CtxEmpty of bool
+
+val can_async : gectx -> bool
+
+type serr =
+| Compacted
+| Unavailable
+| SnapshotOutOfDate
+| SnapshotTemporarilyUnavailable
+| LogTemporarilyUnavailable
+
+val serr_code : serr -> n
+
+type 'a sres =
+| SOk of 'a
+| SErr of serr
+
+type mem = { hs : hard_state; cs : conf_state; entries : entry list;
+             snap_index : n; snap_term : n; trig_snap : bool;
+             trig_log : bool; ge_ctx : gectx option }
+
+val set_hs : mem -> hard_state -> mem
+
+val set_cs : mem -> conf_state -> mem
+
+val set_entries : mem -> entry list -> mem
+
+val set_trig_snap : mem -> bool -> mem
+
+val set_trig_log : mem -> bool -> mem
+
+val set_ge_ctx : mem -> gectx option -> mem
+
+val site_first_overflow : site
+
+val site_commit_to_assert : site
+
+val site_commit_to_index : site
+
+val site_snapshot_entries0 : site
+
+val site_snapshot_underflow : site
+
+val site_snapshot_index : site
+
+val site_snapshot_commit_lt : site
+
+val site_compact_last_overflow : site
+
+val site_compact_oob : site
+
+val site_compact_drain : site
+
+val site_append_compacted : site
+
+val site_append_last_overflow : site
+
+val site_append_gap : site
+
+val site_append_drain : site
+
+val site_entries_last_overflow : site
+
+val site_entries_oob : site
+
+val site_entries_entries0 : site
+
+val site_entries_hi_underflow : site
+
+val site_entries_slice_order : site
+
+val site_entries_slice_end : site
+
+val site_term_index : site
+
+val site_init_assert : site
+
+val new1 : mem
+
+val initialized : mem -> bool
+
+val cs_from : n list -> n list -> conf_state
+
+val initialize_with_conf_state : mem -> conf_state -> mem res
+
+val new_with_conf_state : conf_state -> mem res
+
+val set_hardstate : mem -> hard_state -> mem
+
+val hard_state_of : mem -> hard_state
+
+val set_commit : mem -> n -> mem
+
+val set_conf_state : mem -> conf_state -> mem
+
+val first_index : mem -> n res
+
+val last_index : mem -> n
+
+val has_entry_at : mem -> n -> bool
+
+val commit_to : mem -> n -> mem res
+
+val apply_snapshot : mem -> snapshot -> (mem * unit sres) res
+
+val make_snapshot : mem -> snapshot res
+
+val compact : mem -> n -> mem res
+
+val append : mem -> entry list -> mem res
+
+val commit_to_and_set_conf_states : mem -> n -> conf_state option -> mem res
+
+val trigger_snap_unavailable : mem -> mem
+
+val trigger_log_unavailable : mem -> bool -> mem
+
+val take_get_entries_context : mem -> mem * gectx option
+
+val initial_state : mem -> hard_state * conf_state
+
+val storage_entries :
+  mem -> n -> n -> n option -> gectx -> (mem * entry list sres) res
+
+val storage_term : mem -> n -> n sres res
+
+val storage_first_index : mem -> n res
+
+val storage_last_index : mem -> n
+
+val storage_snapshot : mem -> n -> n -> (mem * snapshot sres) res
+
+type op0 =
+| OSetHardState of hard_state
+| OSetCommit of n
+| OCommitTo of n
+| OSetConfState of conf_state
+| OApplySnapshot of snapshot
+| OCompact of n
+| OAppend of entry list
+| OCommitToConf of n * conf_state option
+| OTrigSnap
+| OTrigLog of bool
+| OTakeCtx
+| OInitConf of conf_state
+| QInitialState
+| QEntries of n * n * n option * gectx
+| QTerm of n
+| QFirstIndex
+| QLastIndex
+| QSnapshot of n * n
+| QHardState
+
+type ret =
+| RUnit
+| RNum of n
+| REntries of entry list
+| RSnap of snapshot
+| RState of hard_state * conf_state
+| RHard of hard_state
+| RCtx of gectx option
+
+val ok_unit : mem res -> (mem * ret sres) res
+
+val map_sres : ('a1 -> 'a2) -> 'a1 sres -> 'a2 sres
+
+val step0 : mem -> op0 -> (mem * ret sres) res
+
+val take_list : n list -> (n list * n list) option
+
+val parse_cs : n list -> (conf_state * n list) option
+
+val parse_vl : n list -> (conf_state * n list) option
+
+val parse_entries : nat -> n list -> (entry list * n list) option
+
+type cmd =
+| COp of op0
+| CDump
+
+val parse_cmd : n list -> (cmd * n list) option
+
+val enc_hs : hard_state -> n list
+
+val enc_cs : conf_state -> n list
+
+val sum_bytes : n list -> n
+
+val enc_entry : entry -> n list
+
+val enc_entries : entry list -> n list
+
+val enc_snap : snapshot -> n list
+
+val enc_ctx : gectx option -> n list
+
+val enc_ret : ret -> n list
+
+val enc_sres : ret sres -> n list
+
+val pANIC : n
+
+val dump0 : mem -> n list * bool
+
+val run_cmds : nat -> mem -> n list -> n list
+
+val run_memstorage : n list -> n list
